@@ -11,7 +11,7 @@ RULE = ("enum: every +/-/0 pattern with N<=7 (quick) / N<=9 (thorough), spelled,
         "hydropathy, composition with default groups, composition with 1-5 user groups in mixed case}. Oracle: row 0 = 1..N; the value of the "
         "window starting at 0-based residue i sits at column i+floor((w-1)/2), floor((w-1)/2) leading and ceil((w-1)/2) trailing zeros; one row "
         "per group; w=N => the single value equals the whole-sequence parameter; get_delta() = mean over w in {5,6} of the mean squared deviation "
-        "of the w-profile's window values from the global sigma (0 when w>N); w>N => exception for all five entry points. Half of the random cases run after a generated warm-up history of other API calls on the same object; user group lists may repeat a group. Non-trivial: 1<w<N; "
+        "of the w-profile's window values from the global sigma (0 when w>N); w>N => exception for all five entry points. About 6% of the random cases are long (129-320), highly charged sequences with windows of 128 residues or more. Half of the random cases run after a generated warm-up history of other API calls on the same object; user group lists may repeat a group. Non-trivial: 1<w<N; "
         "distinct by (sequence, w, profile).")
 ASSUMPTIONS = ["window sizes are positive integers (the statement's domain 1<=w<=N and the rejected range w>N)",
                "hydropathy profile uses the 0-1 (Uversky-normalised) Kyte-Doolittle scale, as get_uversky_hydropathy does", "tolerance 1e-9"]
@@ -118,6 +118,12 @@ def enum_cases(tier, seed):
 
 @st.composite
 def hyp_case(draw, big):
+    if draw(st.integers(0, 15)) == 0:
+        seq = draw(gens.long_charged(129, 320))
+        N = len(seq)
+        w = draw(st.one_of(st.integers(128, N), st.sampled_from([N, N - 1, 128, 129, 200 if N >= 200 else N])))
+        kind = draw(st.sampled_from(["NCPR", "FCR", "sigma", "hydropathy", "comp-default"]))
+        return {"seq": seq, "w": w, "kind": kind, "delta": False}
     seq = draw(gens.sequences(max_len=200 if draw(st.integers(0, 9)) == 0 and big else 60))
     N = len(seq)
     w = draw(st.one_of(st.integers(1, N + 3), st.sampled_from([1, N, N + 1, max(1, N - 1), 5, 6])))
